@@ -158,7 +158,10 @@ const CONST0: u32 = 100;
 pub const POLY: &[OpSpec] = &[
     OpSpec { label: ADD, ins: 2, outs: 1 },
     OpSpec { label: MUL, ins: 2, outs: 1 },
+    OpSpec { label: MUL, ins: 2, outs: 1 },
     OpSpec { label: NEG, ins: 1, outs: 1 },
+    OpSpec { label: COPY, ins: 1, outs: 2 },
+    OpSpec { label: COPY, ins: 1, outs: 2 },
     OpSpec { label: COPY, ins: 1, outs: 2 },
     OpSpec { label: DISCARD, ins: 1, outs: 0 },
     OpSpec { label: 103, ins: 0, outs: 1 },
